@@ -219,8 +219,18 @@ def gen_task_class():
                 name = d.get("objective", "zero")
                 if name.startswith("-"):      # the negated objective (C12: maximising f is minimising -f)
                     v = OBJECTIVE_TABLE[name[1:]](x)
-                    return [-c for c in v] if isinstance(v, list) else -v
-                return OBJECTIVE_TABLE[name](x)
+                    v = [-c for c in v] if isinstance(v, list) else -v
+                else:
+                    v = OBJECTIVE_TABLE[name](x)
+                if d.get("scribble"):
+                    # a deterministic objective that uses its argument as scratch space (unit conversion in place, popping while consuming, …):
+                    # the value is computed from the argument as given, the argument is overwritten afterwards
+                    try:
+                        for i in range(len(x)):
+                            x[i] = x[i] * 3 + 1 if not isinstance(x[i], (list, tuple)) else x[i]
+                    except TypeError:
+                        pass
+                return v
 
         GenTask.__module__ = __name__
         GenTask.__qualname__ = "GenTask"
